@@ -121,8 +121,39 @@ def run(ck: Check) -> None:
             ck.violation("metadata builder: " + pr, {"which": which, "params": {k: repr(v)[:120] for k, v in p.items()}, "result": proto.enc(md)[:800]}, f"builder:{pr[:40]}:{which}")
         if which == "root" and not problems and isinstance(ver, int) and not isinstance(ver, bool) and ver < 2**60 and p["root_pubkeys"]:
             roots.append((p, md))
-    # root metadata built this way, once threshold-signed, verifies as successor of the previous version and can authorize its own successor
+    # histories: what a call returns depends on its arguments only — editing an earlier result (or the arguments afterwards) does not leak into later results
     from .. import impl
+    import copy as _copy
+    mc = impl.metadata_construction
+    for hi in range(6):
+        ks_ = [gen.key(j).hex for j in range(2)]
+        try:
+            with impl.quiet_stdout():
+                first = mc.build_delegating_metadata("key_mgr") if hi % 2 == 0 else mc.build_delegating_metadata(metadata_type="key_mgr", version=3)
+                first["delegations"]["pkg_mgr"] = {"pubkeys": list(ks_), "threshold": 1}       # the caller goes on editing its draft
+                first["extra"] = 1
+                second = mc.build_delegating_metadata("key_mgr") if hi % 2 == 0 else mc.build_delegating_metadata(metadata_type="key_mgr", version=3)
+                dels = {"root": {"pubkeys": list(ks_), "threshold": 1}}
+                third = mc.build_delegating_metadata("root", delegations=dels, version=1)
+                frozen = _copy.deepcopy(third)
+                fourth = mc.build_delegating_metadata("root", delegations=_copy.deepcopy(frozen["delegations"]), version=1)
+                r1 = mc.build_root_metadata(1, list(ks_), 1, list(ks_), 1)
+                r1["delegations"]["root"]["pubkeys"].append("ff" * 32)
+                r2 = mc.build_root_metadata(1, list(ks_), 1, list(ks_), 1)
+        except Exception as e:  # noqa: BLE001
+            ck.violation("metadata builder: a plain call with valid arguments failed", {"error": repr(e)[:200]}, "builder:history-failed")
+            continue
+        ck.oracle_checks += 1
+        ck.evaluations += 1
+        strip = lambda m: {k: v for k, v in m.items() if k not in ("timestamp", "expiration")}
+        if second.get("delegations") != {} or "extra" in second:
+            ck.violation("metadata builder: a draft built without delegations carries what was added to an *earlier* draft (state shared between calls)",
+                         {"second_result": proto.enc(second)[:600]}, "builder:history-leak:delegating")
+        if strip(fourth) != strip(frozen):
+            ck.violation("metadata builder: equal arguments gave different metadata at different points of a history", {}, "builder:history-dependent")
+        if r2["delegations"]["root"]["pubkeys"] != ks_:
+            ck.violation("metadata builder: root metadata carries keys appended to an earlier result", {"result": proto.enc(r2)[:600]}, "builder:history-leak:root")
+    # root metadata built this way, once threshold-signed, verifies as successor of the previous version and can authorize its own successor
     vcases = []
     for p, md in roots[: (ck.n(60, 20))]:
         ks = [k for k in (gen.key(j) for j in range(10)) if k.hex in p["root_pubkeys"]]
